@@ -168,7 +168,7 @@ theorem sharedInv_init : SharedInv State.init [] [] :=
   ⟨rfl, fun _ h => (by cases h), fun _ h => (by cases h), fun _ _ => rfl, fun _ h => (by cases h)⟩
 
 theorem liveLoan_excl_false {vars : List (Var × Info)} (h : ∀ p ∈ vars, p.2.loan ≠ some .excl)
-    (rest : List Stmt) : liveLoan vars rest .excl = false := by
+    (rest : List Stmt) (g : Bool) : liveLoan vars rest .excl g = false := by
   unfold liveLoan
   rw [List.any_eq_false]
   intro p hp
@@ -437,7 +437,7 @@ theorem usedLater_benign_false {g : Bool} {x : Var} :
     | ret _ => simp [benign] at hb
 
 theorem liveLoan_false_of_dead {vars : List (Var × Info)} {rest : List Stmt} {k : LoanKind}
-    (h : ∀ p ∈ vars, p.2.live p.1 rest = false) : liveLoan vars rest k = false := by
+    {g : Bool} (h : ∀ p ∈ vars, p.2.live p.1 rest g = false) : liveLoan vars rest k g = false := by
   unfold liveLoan
   rw [List.any_eq_false]
   intro p hp
@@ -457,7 +457,7 @@ theorem idle_move_go {t : Sigs} (hg : GoodSigs t) {p1 p2 : List Stmt}
   have hng' : NoGlue σ' := hng rfl (fun _ h => by cases h)
   apply accepts_of_go_none
   rw [hgo, go]
-  have hdead : ∀ p ∈ σ'.vars, p.2.live p.1 p2 = false := by
+  have hdead : ∀ p ∈ σ'.vars, p.2.live p.1 p2 true = false := by
     intro p hp
     have hb : p.1 ∈ outB [] p1 := by
       apply Classical.byContradiction
@@ -472,7 +472,8 @@ theorem idle_move_go {t : Sigs} (hg : GoodSigs t) {p1 p2 : List Stmt}
     simp
   have hck : check t σ' .moveArena p2 = none := by
     unfold check
-    simp only [wf, other, access, arenaErr, hinv.alive, liveLoan_false_of_dead hdead]
+    have hgc : Access.moveOut.glueCounts = true := rfl
+    simp only [wf, other, access, arenaErr, hinv.alive, hgc, liveLoan_false_of_dead hdead]
     rfl
   rw [hck]
   simp only [update]
